@@ -162,6 +162,7 @@ def handleLine (d : DState) (line : String) : DState × String :=
   | ["vin", "close", i] => let s := d.srv.step (.clientClose i.toNat!); ({ d with srv := s }, showSrv s)
   | ["vin", "exit", i] => let s := d.srv.step (.exitCmd i.toNat!); ({ d with srv := s }, showSrv s)
   | ["vin", "stop"] => let s := d.srv.step .stop; ({ d with srv := s }, showSrv s)
+  | ["vin", "restart"] => let s := d.srv.step .restart; ({ d with srv := s }, showSrv s)
   | _ => (d, "bad")
 
 partial def loop (h out : IO.FS.Stream) (d : DState) : IO Unit := do
